@@ -4,6 +4,7 @@ TRUSTED_BASE = [
     "Lean 4.33.0 kernel (thorough tier: leanchecker re-check of the property module)",
     "axioms per theorem as listed under coverage.theorems (subset of propext, Classical.choice, Quot.sound)",
     "tools/rs2lean.py (constants + bit functions regenerated from /repo/src on every run)",
+    "tools/rs2lean_text.py (string literals, format strings, option validity table, file-name formats regenerated on every run)",
     "tools/skeleton.py (call-order skeletons of the pipeline / open / drop / worker functions regenerated on every run)",
     "correspondence harness /verif/harness (generators, canonicalisation, independent oracles)",
 ]
